@@ -69,7 +69,7 @@ pub fn resolve_instruction(
         {
             if opts.debug_iterations
             {
-                println!("instr: {} = {:?} [static]",
+                debug_println!("instr: {} = {:?} [static]",
                     ast_instr.src,
                     instr.encoding);
             }
@@ -93,7 +93,7 @@ pub fn resolve_instruction(
         
         if opts.debug_iterations
         {
-            println!("instr: {} = {:?}",
+            debug_println!("instr: {} = {:?}",
                 ast_instr.src,
                 instr.encoding);
         }
